@@ -41,7 +41,7 @@ FINDER_BOUNDS = {
     'find_relative_offsets': 'every selection x every container over 9 positions x 4 offset modes; every cursor pair against every container, also through textselection() on 6 bound and unbound selections of a resource (with extreme cursors)',
     'find_subselectors': 'every sequence of 2-3 of 20 simple targets (7 text selections of two resources, annotations without text, with their whole text and with a sub-part of it, resources, dataset, key, data) x Multi/Composite/Directional',
     'find_text_ops': 'every sub-range of 8 texts (<= 8 codepoints of 1-4 bytes, two with characters whose lower-casing changes their length), 9 needles/delimiters, 3 trim sets; find_text, find_text_nocase, split_text, trim_text, find_text_regex (literal patterns) and find_text_sequence (10 fragment lists) vs plain string operations; AnnotationStore::find_text over 3 resources in 3 orders',
-    'find_query_semantics': '9 constraints over a 12-annotation store: every ordered pair as a conjunction, every pair as a disjunction, LIMIT 1-3; oracle: the single-constraint results',
+    'find_query_semantics': '9 constraints over a 12-annotation store: every ordered pair as a conjunction, every pair as a disjunction, LIMIT 1-3; 3 outer constraints x an (OPTIONAL) sub-query without results; oracle: the single-constraint results',
     'find_data_search': '13 values of five types under two keys x 22 operators: DataValue::test vs the documented semantics; insertion of every value twice (dedup by exact value); find_data by key (also one that does not exist) / value / both vs a full scan',
     'find_annotate_failures': '13 failing annotate() calls (missing / unresolvable / out-of-range / nested targets, bad data references, duplicate ids) on a small store; observable state compared before and after',
     'find_include_cycle': '9 sets of files that @include each other or themselves (stores: pairs with and without a working directory, self-include, a cycle of three, a double include; stand-off resource files without text; dataset files), each loaded in a child process',
